@@ -475,6 +475,11 @@ def _exp_interval(e, env):
         return (0.0, 1.0)
     if isinstance(e, ast.Name) and e.id in env:
         return _exp_interval(env[e.id], {k: v for k, v in env.items() if k != e.id})
+    if is_self_attr(e) and e.attr in env.get("@props", {}):
+        # a (cached) property of the law with a single returned expression: its value
+        props = dict(env["@props"])
+        expr = props.pop(e.attr)
+        return _exp_interval(expr, {"@props": props})
     if isinstance(e, ast.UnaryOp) and isinstance(e.op, (ast.USub, ast.UAdd)):
         a = _exp_interval(e.operand, env)
         if a is None:
@@ -509,6 +514,15 @@ def _singular_powers(prog, ci, fn_node, arg, depth=0, seen=None):
     seen = seen if seen is not None else set()
     out = []
     env = {s_.targets[0].id: s_.value for s_ in ast.walk(fn_node) if isinstance(s_, ast.Assign) and isinstance(s_.targets[0], ast.Name)}
+    props = {}
+    for nm_, defs_ in ci.methods.items():
+        d_ = defs_[-1]
+        decos = {norm_text(x_).split(".")[-1] for x_ in d_.node.decorator_list}
+        if decos & {"property", "cached_property"}:
+            body_ = [x_ for x_ in d_.node.body if not (isinstance(x_, ast.Expr) and isinstance(x_.value, ast.Constant))]
+            if len(body_) == 1 and isinstance(body_[0], ast.Return) and body_[0].value is not None:
+                props[nm_] = body_[0].value
+    env["@props"] = props
     tainted = {arg}
     changed = True
     while changed:
